@@ -49,6 +49,14 @@ func Shard() (int, int) {
 	return s, n
 }
 
+// PickInts is Pick for lists.
+func PickInts(quick, thorough []int) []int {
+	if Thorough() {
+		return thorough
+	}
+	return quick
+}
+
 // Pick returns q in the quick tier and th in the thorough tier.
 func Pick(q, th int) int {
 	if Thorough() {
